@@ -10,9 +10,21 @@ from pathlib import Path
 sys.path.insert(0, str(Path(__file__).resolve().parent))
 import common  # noqa: E402
 
-AREAS = {
-    "C08": "buffer",
-}
+
+
+def discover():
+    """property id -> area module name, from tools/areas/*.py (each declares PROPERTIES = [...])"""
+    import re
+    areas = {}
+    for f in sorted((Path(__file__).resolve().parent / "areas").glob("*.py")):
+        m = re.search(r"^PROPERTIES\s*=\s*\[([^\]]*)\]", f.read_text(), re.M)
+        if m:
+            for pid in re.findall(r"C\d+", m.group(1)):
+                areas[pid] = f.stem
+    return areas
+
+
+AREAS = discover()
 
 
 def main():
